@@ -35,7 +35,7 @@ def is_core(c: dict) -> bool:
     return not c.get("skip") and not c.get("variant")
 
 
-async def run_test(kind: str, fn_spec: dict, ft: dict, check_isolation=True):
+async def run_test(kind: str, fn_spec: dict, ft: dict, check_isolation=True, rerun=False):
     """-> {"results": [per-case obs], "fatal": bool, "log": {idx: entry}, "isolation": None | str}"""
     from koreo import result
     from koreo.function_test import run as ftrun
@@ -79,7 +79,18 @@ async def run_test(kind: str, fn_spec: dict, ft: dict, check_isolation=True):
         o = tr.outcome
         results.append({"pass": bool(tr.test_pass), "outcome": None if o is None and i not in log else obs_out(o)})
     isolation = None
-    if check_isolation:
+    if rerun:
+        # the same PREPARED FunctionTest once more: a run must leave nothing behind (in the fixtures or anywhere
+        # else in the process) that changes the next one
+        res2 = await g.run_ft_async(prepared)
+        again = [{"pass": bool(tr.test_pass),
+                  "outcome": None if tr.outcome is None and i not in log else obs_out(tr.outcome)}
+                 for i, tr in enumerate(res2.test_results)]
+        if again != results or bool(res2.fatal_error) != bool(res.fatal_error):
+            first_diff = next((i for i, (x, y) in enumerate(zip(results, again)) if x != y), min(len(results), len(again)))
+            isolation = (f"a second run of the same prepared FunctionTest differs from the first at case {first_diff}: "
+                         f"{results[first_diff:first_diff + 1]} then {again[first_diff:first_diff + 1]}")
+    if check_isolation and isolation is None:
         after = (g.snap_text(fn), g.snap_text(prepared.inputs), g.snap_text(prepared.initial_resource),
                  g.snap_text(prepared.test_cases))
         names = ["the prepared Function under test", "FunctionTest.inputs", "FunctionTest.initial_resource",
@@ -350,6 +361,20 @@ def compare_runs(cases_a, run_a, cases_b, run_b):
     return None
 
 
+def verdict_oracle(cases, run):
+    """every case that reached the Function is judged as its assertion deserves for what THAT case did
+    (C19's reference; here because a wrong verdict of a non-variant case also decides what runs next)"""
+    for i, c in enumerate(cases[:len(run["results"])]):
+        e = run["log"].get(i)
+        if e is None:
+            continue
+        want = c19.verdict_ref(c, e["out"], e["eff"])
+        if run["results"][i]["pass"] != want:
+            return (f"case {c['label']} " + ("holds for what the case did but FAILED" if want
+                                              else "does not hold for what the case did but PASSED"))
+    return None
+
+
 def chain_oracle(kind, base, cases, run):
     """within ONE run: what a non-variant case hands on is what the next case starts from, and variant /
     skipped cases hand on nothing (read off the observations of what the Function received)"""
@@ -480,7 +505,7 @@ def run_family(ck: Check, drv, fam, sibs, runs=None):
     out = []
     for name, cases in [("base", fam["cases"])] + sibs:
         try:
-            rn = ku.run(run_test(kind, fn_spec, dict(base, testCases=copy.deepcopy(cases))))
+            rn = ku.run(run_test(kind, fn_spec, dict(base, testCases=copy.deepcopy(cases)), rerun=(name == "base")))
         except (Infra, g.FunctionRaised):
             raise
         except Exception as e:
@@ -493,10 +518,11 @@ def run_family(ck: Check, drv, fam, sibs, runs=None):
 
 def family_violations(kind, fn_spec, base, cases_a, cases_b):
     """re-run a pair and evaluate the oracle (used for shrinking and replay)"""
-    ra = ku.run(run_test(kind, fn_spec, dict(base, testCases=copy.deepcopy(cases_a))))
+    ra = ku.run(run_test(kind, fn_spec, dict(base, testCases=copy.deepcopy(cases_a)), rerun=True))
     rb = ku.run(run_test(kind, fn_spec, dict(base, testCases=copy.deepcopy(cases_b))))
     return (compare_runs(cases_a, ra, cases_b, rb) or chain_oracle(kind, base, cases_a, ra)
-            or chain_oracle(kind, base, cases_b, rb) or ra["isolation"] or rb["isolation"])
+            or chain_oracle(kind, base, cases_b, rb) or verdict_oracle(cases_a, ra) or verdict_oracle(cases_b, rb)
+            or ra["isolation"] or rb["isolation"])
 
 
 def shrink_family(fam, cases_a, cases_b):
@@ -580,7 +606,7 @@ def _explore_chunk(ck: Check, drv: LeanDriver, r, n: int):
             if rn["isolation"]:
                 ck.violate({"type": "family", "kind": fam["kind"], "fn_spec": fam["fn_spec"], "base": fam["base"],
                             "cases": cases, "sibling": None}, rn["isolation"])
-            bad = chain_oracle(fam["kind"], fam["base"], cases, rn)
+            bad = chain_oracle(fam["kind"], fam["base"], cases, rn) or verdict_oracle(cases, rn)
             if bad:
                 ck.violate({"type": "family", "kind": fam["kind"], "fn_spec": fam["fn_spec"], "base": fam["base"],
                             "cases": cases, "sibling": None}, bad)
